@@ -127,8 +127,9 @@ def vector_field(rng, mesh, names, arr, valid=None, identity=None):
     perm = np.arange(nd) if identity else rng.permutation(nd)
     mapping = gen.shuffle_keys(rng, {ll[j]: names[int(perm[j])] for j in range(nd)})
     kw = {} if valid is None else {"valid": valid.copy()}
-    f = df.Field(mesh, nvdim=nd, value=arr, vdims=ll if (labels is not None or nd == 1)
-                 else None, vdim_mapping=mapping, **kw)
+    f = gen.via_history(None, df.Field(mesh, nvdim=nd, value=arr,
+                                       vdims=ll if (labels is not None or nd == 1) else None,
+                                       vdim_mapping=mapping, **kw))
     return f, [int(p) for p in perm]
 
 
